@@ -47,6 +47,8 @@ def c_history(e1: int, e2: int, e3: int, e4: int, a1: bool, a2: bool, a3: bool, 
                 devs.append('stream-table-not-empty-at-quiescence')
             if o.cache_after_by and not (SID in o.cache_open) and not o.peer_midfrag:
                 devs.append('reassembly-cache-not-empty-at-quiescence')
+    if o.partial_kept_at_end:
+        devs.append('partial-frame-not-dropped-when-the-interaction-ended')
     if o.closed:
         if o.streams_open or (o.cache_open and not o.peer_midfrag):
             devs.append('state-retained-after-connection-closed')
